@@ -130,6 +130,11 @@ fn main() {
             let what = args.get(2).map(|s| s.as_str()).unwrap_or("");
             match what {
                 "c16" => eng::c16::child_main(args[3].parse().unwrap(), args[4].parse().unwrap()),
+                "c16race" => {
+                    let hex = args.get(6).cloned().unwrap_or_default();
+                    let sched: Vec<u8> = (0..hex.len() / 2).filter_map(|i| u8::from_str_radix(&hex[2 * i..2 * i + 2], 16).ok()).collect();
+                    eng::c16::race_child_main(args[3].parse().unwrap(), args[4].parse().unwrap(), args[5].parse().unwrap(), sched)
+                }
                 "c05ovf" => eng::ctor::ovf_child_main(args[3].parse().unwrap(), args[4].parse().unwrap()),
                 "c07alloc" => eng::ctor::alloc_child_main(args[3].parse().unwrap(), args[4].parse().unwrap()),
                 _ => std::process::exit(2),
